@@ -562,3 +562,184 @@ def generic_replay(info, judge_case):
         return 1
     print("not reproduced (keys now: %s)" % sorted(set(v["key"] for v in res.viol)))
     return 0
+
+
+# ----------------------------------------------------------------- C25 size-limit oracle
+READ_QUANTUM = 4096      # CALIBRATED: one evbuffer_read() moves at most EVBUFFER_MAX_READ_DEFAULT (4096) bytes
+SLACK = 256
+
+
+def measure(kind, data):
+    """(hdr_content, hdr_wire, body_len) of the first message according to the reference parser"""
+    m = ref.parse_request(data, 0) if kind == 'request' else ref.parse_response(data, 0, b"GET", True)
+    return m.hdr_content, m.hdr_wire, len(m.body or b"")
+
+
+def _limits(cfg):
+    mh = cfg.get("mh", -1)
+    mb = cfg.get("mb", -1)
+    return (None if mh < 0 else mh), (None if mb < 0 else mb)
+
+
+def _lower_bound_checks(prefix, cfg, target, fields, body, viol, ctx):
+    """Checks that need no reference: what was delivered itself must fit the limits."""
+    mh, mb = _limits(cfg)
+    low = len(target or b"") + sum(len(n) + len(v) for n, v in fields)
+    if mh is not None and low > mh:
+        viol.append((prefix + ":delivered-exceeds-max-headers-size", "delivered start-line+fields carry at least %d bytes > max_headers_size %d; %s" % (low, mh, ctx)))
+    if mb is not None and len(body) > mb:
+        viol.append((prefix + ":delivered-exceeds-max-body-size", "delivered body has %d bytes > max_body_size %d; %s" % (len(body), mb, ctx)))
+
+
+def _buffer_bound(prefix, cfg, r, last, viol, ctx):
+    mh, mb = _limits(cfg)
+    if mh is None or mb is None:
+        return
+    bound = mh + mb + READ_QUANTUM + SLACK
+    hw = max(r.get("hwx", 0), r.get("hw", 0))
+    if hw > bound:
+        phase = last.phase if (last is not None and last.verdict == 'incomplete') else 'complete-message'
+        viol.append((prefix + ":unbounded-buffering:" + phase,
+                     "input evbuffer reached %d bytes with max_headers_size=%d max_body_size=%d (bound %d = limits + one read quantum + %d); %s" % (
+                         hw, mh, mb, bound, SLACK, ctx)))
+
+
+def judge_limits_server(prefix, c, r, stats):
+    """-> (violations, band) ; band=True when a message sits between the two ways of measuring a header section
+    (with / without line terminators), where accept and reject are both fine and may depend on the segmentation."""
+    viol = []
+    cfg = c.cfg
+    mh, mb = _limits(cfg)
+    data = c.data
+    msgs = ref.parse_request_stream(data)
+    got = r["reqs"]
+    sts = [s for s in out_statuses(r["out"]) if s != 100]
+    ctx0 = "limits mh=%s mb=%s ling=%s stream %s" % (cfg.get("mh"), cfg.get("mb"), cfg.get("ling"), short(data, 200))
+    for q in got:
+        _lower_bound_checks(prefix, cfg, q["u"], q["h"], q["b"], viol, ctx0)
+    band = False
+    i = 0
+    last = msgs[-1] if msgs else None
+    for k, m in enumerate(msgs):
+        ctx = "message #%d; %s" % (k, ctx0)
+        v = m.verdict
+        if v == 'incomplete':
+            if i < len(got):
+                viol.append((prefix + ":incomplete-message-delivered", "%s; %s" % (describe_req(got[i]), ctx)))
+            # an unfinished element already beyond the limit must not be waited for indefinitely while buffering: see buffer bound
+            if m.phase in ('body-cl',) and mb is not None and m.announced_end is not None and m.announced_end - m.hdr_end > mb and cfg.get("ling"):
+                _check_lingering(prefix, cfg, r, m, viol, ctx)
+            break
+        if v != 'accept' or m.closes:
+            stats["unjudged"] = stats.get("unjudged", 0) + 1
+            break
+        n = len(m.body)
+        over_h = mh is not None and m.hdr_content > mh
+        under_h = mh is None or (m.hdr_wire + m.trailer_wire) <= mh
+        over_b = mb is not None and n > mb
+        if over_h or over_b:
+            stats["over_limit_messages"] = stats.get("over_limit_messages", 0) + 1
+            if i < len(got):
+                key = "header-over-limit-delivered" if over_h else "body-over-limit-delivered:" + str(m.framing)
+                viol.append((prefix + ":" + key, "header content %d bytes, body %d bytes; delivered %s; %s" % (m.hdr_content, n, describe_req(got[i]), ctx)))
+            else:
+                st = sts[i] if i < len(sts) else None
+                stats["over_limit_status_%s" % st] = stats.get("over_limit_status_%s" % st, 0) + 1
+                if st is not None and not (400 <= st < 600):
+                    viol.append((prefix + ":over-limit-answered-%s" % st, "an over-limit message must be answered 413/400 or the connection closed; %s" % ctx))
+                if st is None and not r["closed_before_fin"] and r.get("alive_at_end"):
+                    stats["over_limit_waiting_until_eof"] = stats.get("over_limit_waiting_until_eof", 0) + 1
+            if over_b and not over_h and m.framing == 'cl' and cfg.get("ling"):
+                _check_lingering(prefix, cfg, r, m, viol, ctx)
+            break
+        if under_h:
+            if i >= len(got):
+                st = sts[i] if i < len(sts) else None
+                viol.append((prefix + ":within-limit-message-rejected", "header section %d bytes on the wire (+%d trailer), body %d bytes, status %s; %s" % (
+                    m.hdr_wire, m.trailer_wire, n, st, ctx)))
+                break
+            q = got[i]
+            i += 1
+            stats["within_limit_delivered"] = stats.get("within_limit_delivered", 0) + 1
+            if q["u"] != m.target or q["b"] != m.body:
+                viol.append((prefix + ":delivered-message-differs", "expected target %s body %s, delivered %s; %s" % (short(m.target, 40), short(m.body, 60), describe_req(q), ctx)))
+                break
+            continue
+        # band
+        band = True
+        stats["band_messages"] = stats.get("band_messages", 0) + 1
+        if i < len(got) and got[i]["u"] == m.target and got[i]["b"] == m.body:
+            i += 1
+            continue
+        break
+    _buffer_bound(prefix, cfg, r, last, viol, ctx0)
+    return viol, band
+
+
+def _check_lingering(prefix, cfg, r, m, viol, ctx):
+    """with lingering close the over-limit body is drained, but never beyond its announced end"""
+    if m.announced_end is None:
+        return
+    if r.get("del", 0) > m.announced_end:
+        viol.append((prefix + ":lingering-drain-beyond-announced-length", "%d bytes were consumed from the input buffer but the over-limit message ends at offset %d; %s" % (
+            r.get("del", 0), m.announced_end, ctx)))
+
+
+def judge_limits_client(prefix, c, r, stats):
+    viol = []
+    cfg = c.cfg
+    mh, mb = _limits(cfg)
+    closed = c.end in ('X', 'F')
+    obs = client_observed(r, len(c.requests))
+    ctx0 = "limits mh=%s mb=%s requests=%s end=%s stream %s" % (cfg.get("mh"), cfg.get("mb"), [x.decode() for x in c.requests], c.end, short(c.data, 200))
+    for o in obs:
+        if o["kind"] == 'delivered':
+            _lower_bound_checks(prefix, cfg, o["line"], o["h"], o["b"], viol, ctx0)
+    band = False
+    pos = 0
+    last = None
+    for i, method in enumerate(c.requests):
+        o = obs[i]
+        m = ref.parse_response(c.data, pos, method, closed)
+        last = m
+        ctx = "request #%d; %s" % (i, ctx0)
+        v = m.verdict
+        if v == 'incomplete':
+            if o["kind"] == 'delivered':
+                viol.append((prefix + ":incomplete-response-delivered", "%s; %s" % (describe_obs(o), ctx)))
+            break
+        if v != 'accept' or m.interim:
+            stats["unjudged"] = stats.get("unjudged", 0) + 1
+            break
+        n = len(m.body)
+        over_h = mh is not None and m.hdr_content > mh
+        under_h = mh is None or (m.hdr_wire + m.trailer_wire) <= mh
+        over_b = mb is not None and n > mb
+        if over_h or over_b:
+            stats["over_limit_messages"] = stats.get("over_limit_messages", 0) + 1
+            if o["kind"] == 'delivered':
+                key = "header-over-limit-delivered" if over_h else "body-over-limit-delivered:" + str(m.framing)
+                viol.append((prefix + ":" + key, "header content %d bytes, body %d bytes; %s; %s" % (m.hdr_content, n, describe_obs(o), ctx)))
+            else:
+                stats["over_limit_" + o["kind"]] = stats.get("over_limit_" + o["kind"], 0) + 1
+            break
+        if under_h:
+            if o["kind"] != 'delivered':
+                viol.append((prefix + ":within-limit-message-rejected", "header section %d bytes on the wire, body %d bytes, outcome %s; %s" % (m.hdr_wire, n, describe_obs(o), ctx)))
+                break
+            stats["within_limit_delivered"] = stats.get("within_limit_delivered", 0) + 1
+            if o["code"] != m.code or o["b"] != m.body:
+                viol.append((prefix + ":delivered-message-differs", "expected %d body %s, %s; %s" % (m.code, short(m.body, 60), describe_obs(o), ctx)))
+                break
+            pos = m.end
+            if m.closes:
+                break
+            continue
+        band = True
+        stats["band_messages"] = stats.get("band_messages", 0) + 1
+        if o["kind"] == 'delivered' and o["code"] == m.code and o["b"] == m.body and not m.closes:
+            pos = m.end
+            continue
+        break
+    _buffer_bound(prefix, cfg, r, last, viol, ctx0)
+    return viol, band
